@@ -241,6 +241,35 @@ def euler(env):
     env.safe('defined', e)
 
 
+@obligation('C11.euler.function_form', functions=[f'{CV}:euler', f'{LT}:LieTensor.euler'], max_paths=8, first_path_only=True, no_validate=True)
+def euler_function_form(env):
+    """pp.euler(X, eps) is X.euler(eps): the gimbal-lock threshold of the caller reaches the conversion (keyword and positional), for every
+    ltype the function accepts; by contract in the symbolic mode (LieTensor.euler replaced by a recorder), by value on a rotation whose pitch
+    lies between the caller's threshold and the default one in the concrete twin"""
+    cv = env.load(CV); pp = env.load('pypose'); T = env.T; ltm = env.load(LT)
+    if env.sym:
+        X = lie(pp, 'SO3', env.unitquat('X', regimes=('generic',)))
+        seen = []
+        real = ltm.LieTensor.euler
+        def rec(self, eps=Q(2, 10000)):
+            seen.append(eps); return real(self, eps=eps) if False else T.stack([self.tensor()[0] * 0] * 3)
+        env.stub(ltm.LieTensor, 'euler', rec)
+        e1 = Q(1, 10 ** 6)
+        cv.euler(X, eps=e1); cv.euler(X, e1); cv.euler(X)
+        env.holds('the caller\'s eps reaches LieTensor.euler (keyword)', len(seen) >= 1 and seen[0] == e1)
+        env.holds('the caller\'s eps reaches LieTensor.euler (positional)', len(seen) >= 2 and seen[1] == e1)
+        env.holds('the default is the documented 2e-4', len(seen) >= 3 and seen[2] == Q(2, 10000))
+        return
+    import math
+    pitch = math.asin(1 - 5e-5)                 # between the caller's threshold (1e-6) and the default one (2e-4)
+    q = raw(cv.euler2SO3(T.tensor([0.3, pitch, -0.7], dtype=T.float64)))
+    X = lie(pp, 'SE3', T.cat([T.tensor([0.1, 0.2, 0.3], dtype=T.float64), q]))
+    e1 = 1e-6
+    env.eq('the caller\'s eps reaches LieTensor.euler (keyword)', cv.euler(X, eps=e1), X.euler(eps=e1))
+    env.eq('the caller\'s eps reaches LieTensor.euler (positional)', cv.euler(X, e1), X.euler(eps=e1))
+    env.eq('the default is the documented 2e-4', cv.euler(X), X.euler(eps=2e-4))
+
+
 @obligation('C11.canary.wrong_euler_order', functions=[f'{CV}:euler2SO3'], canary=True)
 def canary(env):
     cv = env.load(CV); T = env.T
